@@ -1,10 +1,10 @@
 // ---------------------------------------------------------------------------------------------
 // Error types of src/errors.rs used by the log code (real definitions, extracted).
 // ---------------------------------------------------------------------------------------------
-//@struct src/errors.rs :: LogCorruptionErrorMetadata
-//@enum src/errors.rs :: LogIOError
-//@enum src/errors.rs :: LogSerializationErrorKind
-//@struct src/errors.rs :: DBIOError
+//@struct src/errors.rs :: LogCorruptionErrorMetadata derive: Debug
+//@enum src/errors.rs :: LogIOError derive: Debug
+//@enum src/errors.rs :: LogSerializationErrorKind derive: Debug
+//@struct src/errors.rs :: DBIOError derive: Debug
 
 //@impl src/errors.rs :: impl DBIOError
 //@fn new
